@@ -46,6 +46,29 @@ let parse_op () =
   | "addl" -> OAddListener
   | s -> failwith ("bad op " ^ s)
 
+(* extended operations (Db/RestoreX.v): database-using restore listeners and RestoreFromReader
+   through a scripted reader; everything else is an operation of Db/Snapshot.v *)
+let parse_xop () : xop =
+  match next () with
+  | "addlv" -> XAddListener LView
+  | "addls" -> XAddListener LSnapId
+  | "addlt" -> XAddListener (LTimeline (parse_mode (next ())))
+  | "addlw" -> XAddListener (LWrite (bytes_of_hex (next ())))
+  | "restorer" ->
+      let k = next_int () in
+      let _flavour = next () in     (* how the reader is presented (Read only / WriterTo / Seeker / file ...): no influence *)
+      let len = next_int () in
+      let eofd = next_int () = 1 in
+      let fa = (match next () with "-" -> None | s -> Some (nat_of_int (int_of_string s))) in
+      let fwd = next_int () = 1 in
+      let rest = next_int () in
+      let np = next_int () in
+      let rec go k acc = if k = 0 then List.rev acc else let x = nat_of_int (next_int ()) in go (k - 1) (x :: acc) in
+      let pre = go np [] in
+      XRestoreReader (nat_of_int k, nat_of_int len,
+                      { pre = pre; rest = nat_of_int rest; eof_with_data = eofd; fail_at = fa; fail_with_data = fwd })
+  | _ -> decr pos; XBase (parse_op ())
+
 let dump (c : content) : string =
   if c = [] then "-" else
   String.concat "," (List.map (fun (p, e) ->
@@ -54,26 +77,57 @@ let dump (c : content) : string =
     | EBucket -> "B:" ^ ps
     | EVal v -> "V:" ^ ps ^ "=" ^ hex_of_bytes v) c)
 
+let fnv32 (s : string) : int =
+  let h = ref 0x811c9dc5 in
+  String.iter (fun ch -> h := ((!h lxor (Char.code ch)) * 0x01000193) land 0xffffffff) s;
+  !h
+
 let rec last = function [] -> [] | [x] -> x | _ :: r -> last r
 
-let show (o : op) (b : obs) (d : db) : string =
-  let l = " L[" ^ dump d.live ^ "]" in
+let show_base (o : op) (b : obs) (d : db) : string =
   let f () = " F[" ^ dump (last d.files) ^ "]" in
   match b with
-  | ObTx ok -> (if ok then "tx ok" else "tx err") ^ l
-  | ObSnap id -> "snap " ^ hex_of_bytes id ^ f () ^ l
+  | ObTx ok -> (if ok then "tx ok" else "tx err")
+  | ObSnap id -> "snap " ^ hex_of_bytes id ^ f ()
   | ObUnit ->
       (match o with
-       | OStream -> "stream" ^ f () ^ l
-       | ORestore _ -> Printf.sprintf "restore fired=%d" (int_of_nat d.fired) ^ l
-       | _ -> "addl" ^ l)
-  | ObNoFile -> "nofile" ^ l
-  | ObSnapId None -> "snapid nil" ^ l
-  | ObSnapId (Some id) -> "snapid " ^ hex_of_bytes id ^ l
+       | OStream -> "stream" ^ f ()
+       | _ -> "addl")
+  | ObNoFile -> "nofile"
+  | ObSnapId None -> "snapid nil"
+  | ObSnapId (Some id) -> "snapid " ^ hex_of_bytes id
   | ObTimeline (id, called) ->
       Printf.sprintf "tl %s called=%d calls=%d"
         (match id with None -> "err" | Some s -> "id:" ^ hex_of_bytes s)
-        (if called then 1 else 0) (int_of_nat d.idf_calls) ^ l
+        (if called then 1 else 0) (int_of_nat d.idf_calls)
+
+let show_lobs = function
+  | LoCount -> "c"
+  | LoView c -> Printf.sprintf "v:%d:%08x" (List.length c) (fnv32 (dump c))
+  | LoSnapId None -> "s:nil"
+  | LoSnapId (Some id) -> "s:" ^ hex_of_bytes id
+  | LoTimeline None -> "t:err"
+  | LoTimeline (Some id) -> "t:" ^ hex_of_bytes id
+  | LoWrite -> "w"
+
+let plain = function LoCount -> true | _ -> false
+
+let show (o : xop) (b : xobs) (x : xdb) : string =
+  let d = x.base in
+  let l = " L[" ^ dump d.live ^ "]" in
+  match b with
+  | XoBase ob -> (match o with XBase o' -> show_base o' ob d | _ -> "addl") ^ l
+  | XoRestored ls ->
+      Printf.sprintf "restore fired=%d" (int_of_nat d.fired)
+      ^ (if List.for_all plain ls then ""
+         else Printf.sprintf " calls=%d S[%s]" (int_of_nat d.idf_calls) (String.concat "," (List.map show_lobs ls)))
+      ^ l
+  | XoRefused -> Printf.sprintf "restore refused fired=%d" (int_of_nat d.fired) ^ l
+  | XoNoFile -> "nofile" ^ l
+  | XoCorrupt -> "restore corrupt" ^ l
+
+(* the buffers the copy loop offers: the result does not depend on them (restore_reader_independent) *)
+let caps = let c = nat_of_int 32767 in fun _ -> c
 
 let () =
   iter_lines (fun line ->
@@ -81,10 +135,10 @@ let () =
     | "H" :: rest ->
         toks := Array.of_list rest; pos := 0;
         let n = next_int () in
-        let rec go k acc = if k = 0 then List.rev acc else let o = parse_op () in go (k - 1) (o :: acc) in
+        let rec go k acc = if k = 0 then List.rev acc else let o = parse_xop () in go (k - 1) (o :: acc) in
         let ops = go n [] in
-        let res = run_obs empty_db ops in
-        print_endline ("H " ^ String.concat " | " (List.map2 (fun o (b, d) -> show o b d) ops res))
+        let res = xrun_obs caps empty_xdb ops in
+        print_endline ("H " ^ String.concat " | " (List.map2 (fun o (b, x) -> show o b x) ops res))
     | "R" :: _ -> print_endline "R ok"
     | [] -> ()
     | _ -> print_endline "?")
